@@ -54,7 +54,9 @@ REQUIRED_COUNTERS = ['optimality_syndromes_checked', 'coset_tables_built',
                      'syndromes_given_in_another_dtype',
                      'user_defined_noise_models',
                      'corrections_judged_after_the_batch',
-                     'sweepmatch_runs_with_non_default_budget']
+                     'sweepmatch_runs_with_non_default_budget',
+                     'weight_configs_with_impossible_qubits',
+                     'sweepmatch_decoders_set_up_with_other_noise']
 SHARD_TIMEOUT = {'quick': 900, 'thorough': 5400}
 EXHAUSTIVE = True
 EXHAUSTIVE_SCOPE = ('per (decoder, lattice) block listed in '
@@ -67,6 +69,8 @@ NOISES_A = {
     'biasX8': (0.8, 0.1, 0.1),
     'skew': (0.5, 0.3, 0.2),
     'nearZ': (0.01, 0.01, 0.98),
+    'pureZ': (0.0, 0.0, 1.0),
+    'pureX': (1.0, 0.0, 0.0),
 }
 
 
@@ -236,7 +240,9 @@ def run_opt(task, out):
         for nd in fam.deformations(cls):
             if nd[0] is not None and nm == 'depol':
                 continue
-            if tier == 'quick' and nd[1] and nm not in ('biasZ3',):
+            if nm in ('pureZ', 'pureX') and nd[0] != 'XZZX':
+                continue        # zeros in PART of a sector need XZZX
+            if tier == 'quick' and nd[1] and nm not in ('biasZ3', 'pureZ'):
                 continue
             for p in rates:
                 if tier == 'quick' and p == 0.2 and nm not in ('depol',
@@ -260,10 +266,20 @@ def run_opt(task, out):
             out.count('user_defined_noise_models')
         qx = ref[:, 1] + ref[:, 2]
         qz = ref[:, 3] + ref[:, 2]
-        if max(qx.max(), qz.max()) >= 0.5 or min(qx.min(), qz.min()) <= 0:
+        if max(qx.max(), qz.max()) >= 0.5:
             continue
-        wx = np.log((1 - qx) / qx)
-        wz = np.log((1 - qz) / qz)
+        # qubits that cannot flip in a sector carry infinite weight: my
+        # reference gives them BIG, so a correction through one of them is
+        # never of minimum weight while a possible correction exists
+        BIG = 1e6
+        has_zero = bool(min(qx.min(), qz.min()) <= 0)
+        if has_zero:
+            out.count('weight_configs_with_impossible_qubits')
+        with np.errstate(divide='ignore'):
+            wx = np.where(qx > 0, np.log((1 - qx) / np.where(qx > 0, qx, 1)),
+                          BIG)
+            wz = np.where(qz > 0, np.log((1 - qz) / np.where(qz > 0, qz, 1)),
+                          BIG)
         desc = {'cls': cls, 'size': list(size), 'noise': nm,
                 'noise_def': [ndn, ndk], 'rate': p}
         mech = f'MatchingDecoder/{cls}' + ('/deformed-noise' if ndn else '')
@@ -311,7 +327,7 @@ def run_opt(task, out):
                 tables[tk] = coset_minimum(Hrows, w, n)
             table = tables[tk]
             out.count('coset_tables_built')
-            slack = 1e-6 * float(np.sum(np.abs(w)))
+            slack = 1e-6 * float(np.sum(np.abs(w[w < BIG / 2])))
             synds = sorted(table)
             checked = 0
             for s_sec in synds:
@@ -340,6 +356,8 @@ def run_opt(task, out):
                                   'touched', 'correction acts in the other '
                                   'sector although its syndrome is zero', wit)
                     break
+                if table[s_sec] >= BIG / 2:
+                    continue    # no possible correction for this syndrome
                 if cw > table[s_sec] + slack:
                     out.violation(
                         f'{mech}/sector-{sector}/not-minimum-weight',
@@ -378,10 +396,10 @@ def errors_of_weight(n, w, full):
             yield e
 
 
-def make_decoder(dname, code, p=0.1, **options):
+def make_decoder(dname, code, p=0.1, _noise=(1 / 3, 1 / 3, 1 / 3), **options):
     from panqec.error_models import PauliErrorModel
     from pv.checks.c05 import decoder_classes
-    em = PauliErrorModel(1 / 3, 1 / 3, 1 / 3)
+    em = PauliErrorModel(*_noise)
     return decoder_classes()[dname](code, em, p, **options)
 
 
@@ -475,11 +493,17 @@ def run_single(task, out):
     option_sets = [{}]
     if task['decoder'] == 'RotatedSweepMatchDecoder':
         option_sets += [{'max_rounds': 1}, {'max_rounds': 2}]
+    # the statement is about every single-qubit Pauli error, whatever noise
+    # model the decoder was set up with (a Z-biased study still meets X's)
+    option_sets += [{'_noise': (0.0, 0.0, 1.0)}, {'_noise': (1.0, 0.0, 0.0)},
+                    {'_noise': (0.05, 0.05, 0.9)}]
     for options in option_sets:
         dec = make_decoder(task['decoder'], code, **options)
         omech = mech + (f"/{'+'.join(f'{k}={v}' for k, v in options.items())}"
                         if options else '')
-        if options:
+        if '_noise' in options:
+            out.count('sweepmatch_decoders_set_up_with_other_noise')
+        elif options:
             out.count('sweepmatch_runs_with_non_default_budget')
         for idx, e in enumerate(errors_of_weight(n, 1, True)):
             if idx % task['nchunks'] != task['chunk']:
